@@ -223,18 +223,38 @@ def rowOp (σ : DbModel) (db : Database) (tx : Txn) (op : Operation) (rop : RowO
         let tx2 := if isDelete then { tx1 with deleted := tx1.deleted ++ rows.map (·.1) } else tx1
         .ok ({ count := rows.length }, tx2, step)
 
-/-- does the row satisfy the `columns`/`rows` comparison of a wait operation? -/
-def waitMatches (ts : TableSchema) (cols : List String) (expected : List Model) (p : UUID × Row) : Bool :=
-  cols.all (fun col =>
-    match ts.column col with
-    | none => true
-    | some cs => expected.all (fun e =>
-      match e.field col, (Model.mk p.1 p.2).field col with
-      | some x, some y => isDefaultValue cs x || x == y
-      | _, _ => true))
+/-- an unset set or map and an empty one are the same value for `wait` -/
+def waitNorm : Value → Value
+  | .set [] => .set []
+  | .map [] => .map []
+  | v => v
 
-def waitSatisfied (untilFn : String) (matching expected : Nat) : Bool :=
-  if untilFn == "==" then matching == expected else matching != expected
+/-- does the selected row agree with the expected row on those of `cols` that the
+    expected row provides (`Transaction.waitRowsEqual`, as repaired) -/
+def waitAgree (cols : List String) (provided : OvsRow) (e : Model) (p : UUID × Row) : Bool :=
+  cols.all (fun col =>
+    match get? provided col with
+    | none => true
+    | some _ =>
+      match e.field col, (Model.mk p.1 p.2).field col with
+      | some x, some y => waitNorm x == waitNorm y
+      | _, _ => true)
+
+/-- the selected rows and the expected rows are the same set of rows -/
+def waitRowsEqual (cols : List String) (selected : List (UUID × Row)) (expected : List (OvsRow × Model)) : Bool :=
+  selected.all (fun p => expected.any (fun e => waitAgree cols e.1 e.2 p)) &&
+  expected.all (fun e => selected.any (fun p => waitAgree cols e.1 e.2 p))
+
+/-- the verdict of a wait once the rows are selected and the expected rows decoded -/
+def waitVerdict (ts : TableSchema) (op : Operation) (rows : List (UUID × Row)) (expected : List Model) : Option String :=
+  let cols := if op.columns.isEmpty then dedupKeys ts.cols else op.columns
+  -- a compared column the table does not have cannot be read from the models
+  if !rows.isEmpty && cols.any (fun c => (ts.column c).isNone && op.rows.any (fun r => (get? r c).isSome)) then
+    some "column not found"
+  else if (op.untilFn == "==") == waitRowsEqual cols rows (op.rows.zip expected) then none
+  else match op.timeout with
+    | some _ => some "timed out"
+    | none => some "blocks forever"
 
 /-- `Transaction.Wait` with a zero timeout -/
 def waitOp (σ : DbModel) (db : Database) (tx : Txn) (op : Operation) : Except String (OpResult × Txn) :=
@@ -248,11 +268,9 @@ def waitOp (σ : DbModel) (db : Database) (tx : Txn) (op : Operation) : Except S
       match op.rows.mapM (fun r => getRowData ts r (newModel ts)) with
       | .error e => .error e
       | .ok expected =>
-        if waitSatisfied op.untilFn (rows.filter (waitMatches ts op.columns expected)).length op.rows.length then
-          .ok ({}, tx1)
-        else match op.timeout with
-          | some _ => .error "timed out"
-          | none => .error "blocks forever"
+        match waitVerdict ts op rows expected with
+        | none => .ok ({}, tx1)
+        | some e => .error e
 
 /-- one operation of the per-operation loop: result, new transaction state and
     the step's updates -/
